@@ -33,6 +33,7 @@ import Driver.Mtree
 import Driver.ProtoSession
 import Driver.MountHandleAccept
 import Driver.RemoteStores
+import Driver.StoreOpts
 
 namespace Driver
 open Desync
@@ -665,6 +666,7 @@ def runLine (l : String) : String :=
     | "s3.store" | "s3.get" | "s3.has" | "sftp.has" | "sftp.store" | "sftp.get" => (Remote.run cmd a).getD "bad-op"
     | "tarfs.mode" | "tarfs.read" | "tarfs.tar" | "tarfs.write" => (TarFSCmd.run cmd a).getD "bad-op"
     | "mtree.line" | "mtree.parse" | "mtree.name" => (MtreeCmd.run cmd a).getD "bad-op"
+    | "so.srv" | "so.glob" | "so.locmatch" | "so.store" | "so.index" => (StoreOptsCmd.run cmd a).getD "bad-op"
     | _ => "bad-op"
 
 end Driver
